@@ -106,6 +106,9 @@ def native_replay(module, func, args, env):
 def run_conditions(chk, conds, workers=None):
     """run all conditions (and their twins) in parallel; record results on the Check"""
     workers = workers or max(1, min(14, (os.cpu_count() or 2) - 2))
+    only = os.environ.get("VERIF_ONLY")
+    if only:
+        conds = [c for c in conds if only in c.name or only in c.signature]
     tmp = tempfile.mkdtemp(prefix="vfch_")
     try:
         twin_paths = {}
